@@ -110,6 +110,11 @@ func (p *C11) Gen(seed uint64, i int, tier string) *scen.Scenario {
 				for q := r.Intn(3); q > 0; q-- {
 					op.Opts = append(op.Opts, scen.Op{Kind: scen.Pick(r, []string{"json", "color"}), B: bools()})
 				}
+				if r.Chance(1, 3) {
+					// New(name, "k", v, Attr..., options...): options are allowed anywhere after the name
+					op.Args = []scen.Arg{{K: "key", S: "ka"}, {K: "i", I: 1}, {K: "attr", Key: "kb", Items: []scen.Arg{{K: "i", I: 2}}}}
+					op.Kind = scen.Pick(r, []string{"args_first", "interleaved"})
+				}
 				sc.Setup = append(sc.Setup, op)
 				loggers = append(loggers, nextID)
 				nextID++
